@@ -81,7 +81,8 @@ class FakeFile:
 
 
 class FS:
-    def __init__(self, flags):
+    def __init__(self, flags, old_size=3):
+        self.old_size = old_size    # size of every pre-existing file (symbolic, >= 0: an existing file may be empty)
         self.flags = flags          # name -> (possibly symbolic) bool: pre-exists?
         self.known = {}             # name -> concrete bool once asked
         self.created = set()
@@ -96,6 +97,11 @@ class FS:
             self.known[name] = True if f else False      # forks here, lazily, on the symbolic flag
         return self.known[name]
 
+    def size_of(self, name):
+        if name in self.created:
+            return sum(len(x) for x in self.content.get(name, []))
+        return self.old_size
+
     def open(self, name, mode):
         ex = self.exists(name)
         if "x" in mode and ex:
@@ -107,11 +113,25 @@ class FS:
         raise AssertionError("unexpected open mode " + mode)
 
 
+THE_FS = [None]
+
+
+class _FSRef:
+    """FP objects must not hold a reference to the FS: formatting a path inside
+    an f-string with a format spec makes CrossHair deep-realise the object graph
+    behind it, which would fork on every symbolic pre-existence flag"""
+
+    def __get__(self, obj, typ=None):
+        return THE_FS[0]
+
+
 class FP:
     """the handful of pathlib.Path members pretext_to_asm uses on the output side"""
+    fs = _FSRef()
 
     def __init__(self, fs, s):
-        self.fs, self.s = fs, s
+        THE_FS[0] = fs
+        self.s = s
 
     name = property(lambda self: PurePosixPath(self.s).name)
     stem = property(lambda self: PurePosixPath(self.s).stem)
@@ -130,6 +150,25 @@ class FP:
     def exists(self):
         return self.fs.exists(self.s)
 
+    is_file = exists
+
+    def is_dir(self):
+        return False
+
+    def stat(self):
+        if not self.fs.exists(self.s):
+            raise FileNotFoundError(2, "No such file or directory", self.s)
+        import types
+        return types.SimpleNamespace(st_size=self.fs.size_of(self.s), st_mtime=1000.0, st_mode=0o100644)
+
+    def resolve(self, strict=False):
+        return self
+
+    absolute = resolve
+
+    def __fspath__(self):
+        return self.s
+
     def open(self, mode="r"):
         return self.fs.open(self.s, mode)
 
@@ -139,49 +178,61 @@ class FP:
     __repr__ = __str__
 
 
-class Recorder(logging.Handler):
-    def __init__(self):
-        super().__init__()
-        self.msgs = []
-
-    def emit(self, record):
-        self.msgs.append(record.getMessage())
-
-
 ECHO = []
 P2A.click.echo = lambda message=None, file=None, nl=True, err=False, color=None: ECHO.append(str(message))
+LOGGED = []
 CURRENT = {}
 
 
-def fake_basic_config(**conf):
-    """logging.basicConfig's documented contract for the keys used: opens
-    ``filename`` with ``filemode`` (so 'x' fails on an existing file)"""
-    root = logging.getLogger()
-    for h in list(root.handlers):
-        if not isinstance(h, Recorder):
-            root.removeHandler(h)
-    root.setLevel(conf.get("level", logging.INFO))
-    if "filename" in conf:
-        fh = conf["filename"].open(conf.get("filemode", "a"))
-        CURRENT["logfile"] = fh
+class _Dummy:
+    def __init__(self, *a, **k):
+        pass
+
+    def setLevel(self, *a):
+        pass
+
+    def setFormatter(self, *a):
+        pass
+
+    def addHandler(self, *a):
+        pass
 
 
-logging.basicConfig = fake_basic_config
+class FakeLogging:
+    """stands for the ``logging`` module inside pretext_to_asm only (real
+    LogRecords read time.time(), which CrossHair models as a symbolic float and
+    which made every path fork): records the messages; basicConfig honours its
+    documented contract for filename/filemode (opens the file: 'x' fails on an
+    existing file, 'w' truncates)"""
+    DEBUG, INFO, WARNING, ERROR, CRITICAL = 10, 20, 30, 40, 50
+    StreamHandler = _Dummy
+    Formatter = _Dummy
+
+    def basicConfig(self, **conf):
+        if "filename" in conf:
+            CURRENT["logfile"] = conf["filename"].open(conf.get("filemode", "a"))
+
+    def getLogger(self, *a):
+        return _Dummy()
+
+    def _rec(self, msg, *a):
+        LOGGED.append(str(msg))
+
+    debug = info = warning = error = critical = _rec
+
+
+P2A.logging = FakeLogging()
 
 
 def run_cli(fs, asm_file, prtxt_file, out_name, clobber, write_log):
-    root = logging.getLogger()
-    for h in list(root.handlers):
-        root.removeHandler(h)
-    rec = Recorder()
-    root.addHandler(rec)
     del ECHO[:]
+    del LOGGED[:]
     code = None
     try:
         P2A.cli.callback(Path(TMP) / asm_file, Path(TMP) / prtxt_file, FP(fs, "/out/" + out_name), "SUPER_", clobber, "INFO", write_log)
     except SystemExit as e:
         code = e.code if e.code is not None else 0
-    return code, rec.msgs + list(ECHO)
+    return code, list(LOGGED) + list(ECHO)
 
 
 def planned(asm_file, prtxt_file, out_name):
@@ -191,10 +242,10 @@ def planned(asm_file, prtxt_file, out_name):
     return sorted(fs.created)
 
 
-def check(asm_file, prtxt_file, out_name, plan, clobber, write_log, flags):
+def check(asm_file, prtxt_file, out_name, plan, clobber, write_log, flags, old_size=3):
     START()
     pre = dict(zip(plan, flags))
-    fs = FS(pre)
+    fs = FS(pre, old_size)
     code, msgs = run_cli(fs, asm_file, prtxt_file, out_name, clobber, write_log)
     will = [n for n in plan if write_log or not n.endswith(".log")]
     # which planned outputs pre-existed (as far as the run looked; unasked flags are irrelevant to it)
@@ -228,8 +279,8 @@ NPLAN = {"tpf_single": 5, "agp_multi": 7, "tpf_multi": 7, "fasta_multi": 10, "fa
 def _fn(case, clob=None, wl=None):
     a, p, o = CASES[case]
     n = NPLAN[case]
-    name = f"nc_{case}" + ("" if clob is None else f"_c{int(clob)}w{int(wl)}")
-    args = ([] if clob is not None else ["clobber: bool", "write_log: bool"]) + [f"p{i}: bool" for i in range(n)]
+    name = f"nc_{case}" + ("" if clob is None else f"_c{int(clob)}") + ("" if wl is None else f"_w{int(wl)}")
+    args = ([] if clob is not None else ["clobber: bool"]) + ([] if wl is not None else ["write_log: bool"]) + [f"p{i}: bool" for i in range(n)] + ["sz: int"]
     cl = "clobber" if clob is None else str(clob)
     w = "write_log" if wl is None else str(wl)
     return name, f'''
@@ -239,15 +290,16 @@ assert len(PLAN_{case}) == {n}, PLAN_{case}
 
 def {name}({", ".join(args)}) -> bool:
     """
+    pre: sz >= 0
     post: _
     """
-    return check("{a}", "{p}", "{o}", PLAN_{case}, {cl}, {w}, [{", ".join(f"p{i}" for i in range(n))}])
+    return check("{a}", "{p}", "{o}", PLAN_{case}, {cl}, {w}, [{", ".join(f"p{i}" for i in range(n))}], sz)
 '''
 
 
 ENC = ("pretext_to_asm.cli", "pretext_to_asm.setup_logging", "pretext_to_asm.get_output_filehandle", "pretext_to_asm.write_assemblies", "pretext_to_asm.write_assembly",
        "pretext_to_asm.write_info_yaml", "pretext_to_asm.write_chr_csv_files", "pretext_to_asm.write_chr_report_csv", "pretext_to_asm.name_assemblies", "pretext_to_asm.parse_output_file")
-ENV = {"VERIF_LOADER_OPTS": "notokens,nologcut,nomsgcut,nofmtcut"}
+ENV = {"VERIF_LOADER_OPTS": "notokens,nomsgcut,keeplog:scripts/pretext_to_asm.py"}
 
 
 def conditions(tier):
@@ -261,11 +313,12 @@ def conditions(tier):
         done_plan.add(case)
         return name, src
 
-    specs = [("tpf_single", None, None, "quick", 900), ("agp_multi", None, None, "quick", 1800)]
-    for clob in (False, True):
-        for wl in (False, True):
-            specs.append(("fasta_multi", clob, wl, "quick" if not clob else "thorough", 2400))
-    specs += [("tpf_multi", None, None, "thorough", 2400), ("fasta_single", None, None, "thorough", 2400)]
+    # with --clobber every planned file is asked for (Overwrote/Created message): 2^n paths, so those are thorough-tier
+    specs = [("tpf_single", None, None, "quick", 900),
+             ("agp_multi", False, None, "quick", 900), ("fasta_multi", False, None, "quick", 900),
+             ("tpf_multi", False, None, "quick", 900), ("fasta_single", False, None, "quick", 900),
+             ("agp_multi", True, None, "thorough", 3000), ("tpf_multi", True, None, "thorough", 3000), ("fasta_single", True, None, "thorough", 3000),
+             ("fasta_multi", True, True, "thorough", 6000), ("fasta_multi", True, False, "thorough", 6000)]
     parts, metas = [], []
     for (case, clob, wl, tname, to) in specs:
         name, src = add(case, clob, wl, tname, to)
@@ -275,8 +328,8 @@ def conditions(tier):
     for (name, case, clob, wl, tname, to) in metas:
         a, p, o = CASES[case]
         out.append(Cond("no_clobber_" + name[3:], src_all, name, to,
-                        f"the real pretext-to-asm cli callback on real inputs ({a}, {p}) with output template {o}: {NPLAN[case]} planned output files, each pre-existing or not by a symbolic flag"
-                        + (", --clobber/--no-clobber and --write-log/--no-write-log symbolic" if clob is None else f", clobber={clob}, write_log={wl}")
+                        f"the real pretext-to-asm cli callback on real inputs ({a}, {p}) with output template {o}: {NPLAN[case]} planned output files, each pre-existing or not by a symbolic flag, pre-existing files of symbolic size >= 0"
+                        + (", --clobber/--no-clobber symbolic" if clob is None else f", clobber={clob}") + (", --write-log/--no-write-log symbolic" if wl is None else f", write_log={wl}")
                         + "; output side on an in-memory file system (open('x') on an existing name raises FileExistsError, 'w' truncates)",
                         tier=tname, env=ENV, encodes=ENC))
     return out
@@ -286,4 +339,5 @@ BOUNDS = ["5 runs: TPF single-assembly, AGP and TPF multi-assembly (primary + ha
 OUTSIDE = ["the kernel's own O_EXCL semantics (open('x') is trusted to fail on an existing file)", "byte-for-byte content of files rewritten under --clobber (only 'opened for truncating rewrite and written' is checked)",
            "files that exist but are not outputs of the run"]
 TRUSTED = ["CrossHair/z3 (the only symbolic inputs are booleans: the path tree enumerates them lazily, through the real CLI code)", "FP/FS: in-memory model of the pathlib members used on the output side",
-           "logging.basicConfig replaced by a stub honouring filename/filemode", "click.echo replaced by a recorder", "loader used without cuts for this property"]
+           "the logging module as seen by pretext_to_asm replaced by a recorder whose basicConfig opens filename with filemode (real LogRecords read time.time(), which CrossHair makes symbolic)", "click.echo replaced by a recorder",
+           "loader: logging calls of the OTHER modules and format specs cut (display only); message text and tokens untouched"]
